@@ -14,6 +14,9 @@ import (
 
 const maxLinkDepth int = 100
 
+// All known permission types, a permission can be prefixed with "TYPE:".
+var permissionTypes = []string{"readfiles"}
+
 // User represents an end-user which connected to the server via the DTail client.
 type User struct {
 	// The user name.
@@ -110,10 +113,11 @@ func (u *User) iteratePaths(cleanPath, permissionType string) (bool, error) {
 		var regexStr string
 		var negate bool
 
-		splitted := strings.Split(permission, ":")
-		if len(splitted) > 1 {
-			typeStr = splitted[0]
-			permission = strings.Join(splitted[1:], ":")
+		// Only a known permission type is a type prefix (e.g. "readfiles:"), the regex
+		// itself may contain colons too (e.g. "[[:digit:]]" or a path such as "/app:1/").
+		if i := strings.Index(permission, ":"); i > 0 && isPermissionType(permission[:i]) {
+			typeStr = permission[:i]
+			permission = permission[i+1:]
 		}
 
 		dlog.Server.Debug(u, cleanPath, typeStr, permission)
@@ -145,4 +149,13 @@ func (u *User) iteratePaths(cleanPath, permissionType string) (bool, error) {
 	}
 
 	return hasPermission, nil
+}
+
+func isPermissionType(str string) bool {
+	for _, permissionType := range permissionTypes {
+		if str == permissionType {
+			return true
+		}
+	}
+	return false
 }
